@@ -341,7 +341,45 @@ def gen_trw(count, seed, first_id=9700):
     return out
 
 
+def gen_cancel(count, seed, first_id=9950):
+    """Abort of a future task that may be pending in notified() / acquire / lock: the request leaves the queue, what
+    was already handed over is passed on (tokio's cancel safety).  Abortable tasks own no channel handles."""
+    rng = random.Random(f"tk_cancel:{seed}")
+    out = []
+    for i in range(count):
+        n = rng.randint(3, 4)
+        kinds = ["thread"] + ["future"] * (n - 1)
+        which = rng.choice(["nt", "nt", "sm", "mx"])
+        tasks = []
+        victim = rng.randint(1, n - 1)
+        for t in range(1, n):
+            if which == "nt":
+                ops = [op("nt_wait", 0)]
+            elif which == "sm":
+                ops = [op("sm_acq", 0, rng.randint(1, 2)), op("yield"), op("sm_rel", 0)]
+            else:
+                ops = [op("mx_lock", 0), op("yield"), op("mx_unlock", 0)]
+            if t != victim and rng.random() < 0.3:
+                ops.append(op("yield"))
+            tasks.append(task(kinds[t], ops))
+        main = []
+        acts = [op("abort", 0, victim)]
+        if which == "nt":
+            acts += [op("nt_one", 0) for _ in range(n - 2 + rng.choice([0, 0, 1]))]
+        elif which == "sm":
+            acts += [op("sm_add", 0, rng.randint(1, 2)) for _ in range(rng.randint(1, 2))]
+        rng.shuffle(acts)
+        if rng.random() < 0.5:
+            main.append(op("yield"))
+        main += acts
+        kw = dict(nnt=1) if which == "nt" else (dict(sems=[rng.randint(0, 1)]) if which == "sm" else dict(nmx=1))
+        out.append(tprog(first_id + i, "tk_cancel", [task("thread", main)] + tasks, **kw))
+    return out
+
+
 def family(fam, count, seed):
+    if fam == "tk_cancel":
+        return gen_cancel(count, seed)
     if fam == "tk_watch":
         return gen_watch(count, seed)
     if fam == "tk_rwlock":
